@@ -16,7 +16,8 @@ Open Scope Q_scope.
 Open Scope string_scope.
 """
 
-CORPUS = [("exp2d", "tls"), ("exp2c", "tls"), ("exp2d", "lsq"), ("twoexp", "lsq"), ("pade", "tls"), ("cosh", "tls"), ("exp2c", "lsq+corr+priors"), ("rational", "lsq+corr+priors")]
+CORPUS = [("exp2d", "tls"), ("exp2c", "tls"), ("exp2d", "lsq"), ("twoexp", "lsq"), ("pade", "tls"), ("cosh", "tls"), ("exp2c", "lsq+corr+priors"), ("rational", "lsq+corr+priors"),
+          ("exp2", "lsq+corr+alt"), ("exp2c", "lsq+corr+alt")]
 VERDICTS = ["fit_values_ok", "fit_stationary", "fit_chisq_ok", "fit_implicit"]
 
 
@@ -66,10 +67,13 @@ def run(ctx):
         name = rng.choice(sorted(fam))
         kind = rng.choice(["lsq", "lsq", "lsq", "tls"])
         forced = None
+        alt_method = rng.choice(["Nelder-Mead", "Powell"]) if rng.random() < 0.1 else None
         if i < len(CORPUS):                   # stratification: combinations every run must contain
             name, kind = CORPUS[i]
             if kind == "lsq+corr+priors":
                 kind, forced = "lsq", ("estimated", "dict")
+            elif kind == "lsq+corr+alt":          # a correlated fit through one of scipy's general minimisers (the non-default branch)
+                kind, forced, alt_method = "lsq", ("estimated", "none"), rng.choice(["Nelder-Mead", "Powell"])
         npar, ncomp, build, ptrue, xgen = fam[name]
         npts = rng.randint(npar + 3, npar + 5)
         xs = xgen(rng, npts)
@@ -103,6 +107,9 @@ def run(ctx):
                     if forced:
                         corr_mode, prior_mode = forced
                     kw["initial_guess"] = [p * rng.uniform(0.9, 1.1) for p in ptrue]
+                    if alt_method and not num_grad:
+                        kw["method"] = alt_method
+                        ctx.count("method:" + alt_method)
                     mask, pri = [], []
                     if prior_mode == "dict":
                         mask = sorted(rng.sample(range(npar), rng.randint(1, npar)))
@@ -132,7 +139,7 @@ def run(ctx):
                     dvals = [float(o.value) for o in dobs]
                     nu = npar
                     chisq = float(res.chisquare)
-                    tol = 2.0 ** -18
+                    tol = 2.0 ** -9 if "method" in kw else 2.0 ** -18      # simplex / direction-set minimisers stop far from machine precision
                     opts = {"kind": kind, "correlated": corr_mode, "priors": prior_mode, "num_grad": num_grad}
                 else:
                     x_obs = [[xc + noise(0.02 * max(abs(xc), 0.5)) for xc in x] for x in xs]        # [point][component]
